@@ -73,7 +73,7 @@ theorem prV3Connack_eff {c : C} (h : Wf c) (parsed : Except Nat Pkt) :
         · simp only [hrc, hsp, if_true, if_false, decide_true, Bool.not_false, Bool.and_self, Bool.false_eq_true]
           exact Eff.via h (by quiet_tac) (fun h' => clearStoreRelated_eff h')
         · simp only [hrc, hsp, if_true, decide_true, Bool.not_true, Bool.and_false]
-          exact Eff.via h (by quiet_tac) (fun h' => sendStored_eff h')
+          exact Eff.via h (by quiet_tac) (fun h' => resendStored_eff h')
       · simp only [hrc, if_false, decide_false, Bool.false_and]
         exact Eff.refl h
 
@@ -136,7 +136,7 @@ theorem prV5Connack_eff {c : C} (h : Wf c) (parsed : Except Nat Pkt) :
         · simp only [Bool.false_eq_true, if_false, Bool.not_false]
           exact e1.trans (clearStoreRelated_eff e1.wf)
         · simp only [if_true, Bool.not_true]
-          exact e1.trans (sendStored_eff e1.wf)
+          exact e1.trans (resendStored_eff e1.wf)
       · simp only [hrc, if_false, decide_false, Bool.false_and]
         exact Eff.refl h
 
